@@ -21,7 +21,7 @@ pub fn prop() -> Prop {
 fn spec() -> Spec {
     Spec {
         kinds: vec![Kind { name: "five_dof", quick: 500_000, thorough: 12_000_000, serial: false }],
-        rule: "each case = non-degenerate robot with dof 5 or 6 (64 sign patterns, offsets) bare / behind an axial tool / on an arbitrary base / both; pose = reference FK of a generated q; J6 values 0, +-pi, 1e3, random; inverse_5dof and inverse_continuing_5dof on every robot, inverse and inverse_continuing additionally on dof-5 robots; every answer: tool point, tool axis, J6 bit-identical to the caller's value; generating J1..J5 present when non-singular; never empty on a pose produced by the robot's own FK; non-trivial = call returned >= 1 vector; distinct = hash(robot, stack, q, j6, entry) Workload additions: a quarter of the robots with limits on J6 only, asymmetric about zero; the sentinel's own J6 entry (0, up to whole turns); previous = an answer for the same tool point with the axis turned by 5..30 degrees; poses whose wrist centre lies exactly on the joint-2 axis of the other shoulder branch; dof-5 robots with an unblocked sixth sign.",
+        rule: "each case = non-degenerate robot with dof 5 or 6 (64 sign patterns, offsets) bare / behind an axial tool / on an arbitrary base / both; pose = reference FK of a generated q; J6 values 0, +-pi, 1e3, random; inverse_5dof and inverse_continuing_5dof on every robot, inverse and inverse_continuing additionally on dof-5 robots; every answer: tool point, tool axis, J6 bit-identical to the caller's value; generating J1..J5 present when non-singular; never empty on a pose produced by the robot's own FK; non-trivial = call returned >= 1 vector; distinct = hash(robot, stack, q, j6, entry) Workload additions: a quarter of the robots with limits on J6 only, asymmetric about zero; the sentinel's own J6 entry (0, up to whole turns); previous = an answer for the same tool point with the axis turned by 5..30 degrees; poses whose wrist centre lies exactly on the joint-2 axis of the other shoulder branch; dof-5 robots with an unblocked sixth sign. Rounds 7-9: poses inside the wrist band; postures 1.2e-5..1e-3 rad from the elbow singularity (generating-vector clause down to an elbow measure of 1e-5); J6 ranges wrapping the +-180 degree seam; targets with an exactly zero coordinate.",
         assumptions: vec![
             "accuracy 1e-6 m / 1e-6 rad plus slack 1e-9 + 1e-12*reach",
             "generating J1..J5 expected only when |sin t5| and the wrist-centre/axis-1 distance (relative to reach) are >= 1e-3 and |sin(t3+psi3)| >= 1e-5 (the closed form is exact up to rounding, so next to the elbow singularity the originating vector is still reproduced)",
@@ -99,6 +99,31 @@ fn run_case(_kind: &str, idx: u64, rng: &mut Rng, mon: &mut Mon, _tier: Tier) {
         place_t5(&rp, &mut q, 0, rng.sign() * rng.logu(2e-5, 1.6e-4));
         target = ref_forward(&rp, &layers, &q);
         mon.count("poses_inside_the_wrist_band");
+    }
+    // one pose in twenty is a hand-written target: one coordinate of the (bare robot's) flange point is exactly 0.0; the
+    // reference configuration comes from the 6-DOF closed form of the same geometry
+    if rng.usize(20) == 0 {
+        let mut flange = fk(&rp, &q);
+        flange.p[rng.usize(3)] = 0.0;
+        let mut rp6 = rp;
+        rp6.dof = 6;
+        if rp6.signs[5] == 0 {
+            rp6.signs[5] = 1;
+        }
+        let sols6 = rs_opw_kinematics::kinematic_traits::Kinematics::inverse(&OPWKinematics::new(to_params(&rp6)), &fr_to_iso(&flange));
+        if let Some(s6) = sols6.first() {
+            q = *s6;
+            let mut t = flange;
+            for l in &layers {
+                match l {
+                    Layer::Tool(x) | Layer::Frame(x) => t = t.mul(x),
+                    Layer::Base(x) => t = x.mul(&t),
+                    _ => {}
+                }
+            }
+            target = t;
+            mon.count("targets_with_an_exactly_zero_coordinate");
+        }
     }
     // a twelfth of the postures has the elbow 1.2e-5 .. 1e-3 rad from fully stretched / folded (not AT the
     // singularity): the elbow-up and elbow-down rows of the closed form are then two distinct answers a few 1e-5 rad apart
